@@ -185,6 +185,7 @@ type Stats struct {
 	Extra       map[string]interface{} `json:"extra,omitempty"`
 	Rules       map[string]string      `json:"rules"`
 	Exhaustive  map[string]bool        `json:"exhaustive,omitempty"`
+	Enumerated  int64                  `json:"enumerated"` // distinct non-trivial cases of enumerations (not hashed)
 	Completed   bool                   `json:"completed"`
 }
 
@@ -255,10 +256,7 @@ func AddEvaluations(id string, n, distinctNonTrivial int64, exhaustive bool, sam
 	stats.Rules[id] = rules[id]
 	stats.Evaluations += n
 	stats.NonTrivial += distinctNonTrivial
-	base := caseHash(id, nil)
-	for i := int64(0); i < distinctNonTrivial; i++ {
-		hashes = append(hashes, base+uint64(i)*0x9e3779b97f4a7c15)
-	}
+	stats.Enumerated += distinctNonTrivial // distinct by construction (an enumeration), counted once
 	if exhaustive {
 		stats.Exhaustive[id] = true
 	}
